@@ -627,3 +627,177 @@ def c19_special(pid, prop, tier, seed, b):
             failures.append((c, ['the C++ port answers differently (field %s): Go %s | C++ %s' % (diff[:2], str(a)[:300], str(b_)[:300])]))
             c['model'] = cc
     return cases, impl_lines, failures, [], dict()
+
+
+# ------------------------------------------------------------------ C20 handle tables
+
+def c20_steps(op):
+    """scheduler steps an operation can take at most"""
+    return {'A': 1, 'I': 2, 'D': 3, 'G': 1, 'L': 1, 'S': 3}[op[0]]
+
+
+def c20_history(rng, nthreads, nhandles, maxops):
+    """disciplined histories: thread 0 creates the handles and one reference per owner,
+    then every thread increfs / decrefs / gets within what it owns and releases all"""
+    owners = {h: sorted(rng.sample(range(nthreads), rng.randint(1, nthreads))) for h in range(nhandles)}
+    setup = []
+    for h in range(nhandles):
+        setup.append('A')
+    for h in range(nhandles):
+        for _ in range(len(owners[h]) - 1):
+            setup.append('I%d' % h)
+    threads = [[] for _ in range(nthreads)]
+    expect_found = []
+    for t in range(nthreads):
+        own = {h: 1 for h in range(nhandles) if t in owners[h]}
+        ops = []
+        for _ in range(rng.randint(0, maxops)):
+            if not own:
+                break
+            h = rng.choice(sorted(own))
+            k = rng.random()
+            if k < 0.3:
+                ops.append('I%d' % h)
+                own[h] += 1
+            elif k < 0.6:
+                ops.append('D%d' % h)
+                own[h] -= 1
+                if own[h] == 0:
+                    del own[h]
+            elif k < 0.85:
+                ops.append('G%d' % h)
+            else:
+                ops.append('L')
+        for h in sorted(own):
+            ops += ['D%d' % h] * own[h]
+        threads[t] = ops
+    # thread 0 performs the setup first; handles it does not own itself are handed over:
+    # thread 0 created them with one reference, which belongs to the first owner
+    threads[0] = setup + threads[0]
+    # if thread 0 is not an owner of h, the creation reference stands for the first owner's: nothing to do
+    setup_steps = sum(c20_steps(o) for o in setup)
+    total = sum(c20_steps(o) for t in threads for o in t)
+    sched = [0] * setup_steps
+    body = []
+    for t in range(nthreads):
+        body += [t] * sum(c20_steps(o) for o in threads[t])
+    rng.shuffle(body)
+    sched += body
+    tail = list(range(nthreads)) * (total + 4)
+    return threads, sched + tail, owners
+
+
+def c20_special(pid, prop, tier, seed, b):
+    rng = random.Random(seed * 1000003 + 20)
+    cases = []
+    n = 400 if tier == 'quick' else 8000
+
+    def add(which, threads, sched, shape, meta):
+        spec = ';'.join(','.join(t) if t else '-' for t in threads)
+        s = ','.join(map(str, sched)) if sched else '-'
+        c = dict(line=line('c20', which, spec, s), raw='%s %s %s' % (which, spec, s), text='%s threads=%s schedule=%s' % (which, spec, s[:80]),
+                 shape=shape, meta=meta, nontrivial=len(threads) > 1, args=[spec], op='c20')
+        cases.append(c)
+    for i in range(n):
+        nt = rng.choice([1, 2, 2, 3, 3, 4, 8])
+        nh = rng.choice([1, 1, 2, 3, 8]) if nt < 8 else rng.choice([1, 2])
+        threads, sched, owners = c20_history(rng, nt, nh, rng.choice([2, 4, 6]))
+        add(rng.choice(['fs', 'seq']), threads, sched, 'disciplined-%dt' % nt, dict(kind='disc', threads=threads, nh=nh))
+    # exhaustive: every interleaving of two owners each releasing (and one re-incref) on one handle
+    small = [[['A', 'I0', 'D0'], ['D0']], [['A', 'I0', 'I0', 'D0', 'D0'], ['D0']], [['A', 'I0', 'G0', 'D0'], ['G0', 'D0']]]
+    import itertools
+    for th in small:
+        setup_steps = 1 + 2 * sum(1 for o in th[0][1:] if o == 'I0' and True) if False else None
+        # setup = A and the first I0 of thread 0
+        pre = [0] * (1 + 2)
+        rest0 = sum(c20_steps(o) for o in th[0][2:])
+        rest1 = sum(c20_steps(o) for o in th[1])
+        count = 0
+        for pos in itertools.combinations(range(rest0 + rest1), rest1):
+            body = [0] * (rest0 + rest1)
+            for p_ in pos:
+                body[p_] = 1
+            count += 1
+            if tier == 'quick' and count % 3:
+                continue
+            add('fs', th, pre + body + [0, 1] * 12, 'exhaustive-2t', dict(kind='disc', threads=th, nh=1))
+    # single-threaded histories that also use stale / unknown handles
+    for i in range(60 if tier == 'quick' else 1500):
+        ops = ['A']
+        live = 1
+        for _ in range(rng.randint(1, 10)):
+            k = rng.random()
+            if k < 0.2:
+                ops.append('S%d' % rng.randint(0, 2))
+            elif k < 0.4:
+                ops.append('G0')
+            elif k < 0.6:
+                ops.append('I0')
+                live += 1 if live > 0 else 0
+            elif k < 0.9:
+                ops.append('D0')
+                live -= 1 if live > 0 else 0
+            else:
+                ops.append('L')
+        ops += ['D0'] * live
+        add(rng.choice(['fs', 'seq']), [ops], [0] * (3 * len(ops) + 3), 'single-stale', dict(kind='stale', threads=[ops], nh=1))
+    # implementation: one go test run over all cases
+    work = tempfile.mkdtemp(prefix='verif.c20.', dir='/var/tmp')
+    problems = []
+    try:
+        fin, fout = work + '/in.txt', work + '/out.txt'
+        open(fin, 'w').write('\n'.join(c['raw'] for c in cases) + '\n')
+        env = dict(GOENV, VERIF_C20_IN=fin, VERIF_C20_OUT=fout)
+        rc, out = infra.sh('cd %s && go test -tags verif -vet=off -count=1 -run TestVerifSchedules ./exp/cpp/export' % REPO, env=env, timeout=1800)
+        impl = open(fout).read().split('\n') if os.path.exists(fout) else []
+        if rc != 0:
+            problems.append(('go-test', 'schedule replay driver failed: ' + out[-800:]))
+        # race-detector stress (real goroutines)
+        reps = 2 if tier == 'quick' else 12
+        stress_fail = None
+        for r_ in range(reps):
+            env2 = dict(GOENV, VERIF_C20_STRESS=str(seed % 1000 + r_ + 1))
+            rc2, out2 = infra.sh('cd %s && go test -race -tags verif -vet=off -count=1 -run TestVerifStress ./exp/cpp/export' % REPO, env=env2, timeout=1800)
+            if rc2 != 0:
+                stress_fail = out2[-1500:]
+                break
+    finally:
+        shutil.rmtree(work, ignore_errors=True)
+    model = infra.run_driver(V + '/bin/mldriver', [c['line'] for c in cases])
+    failures, disagreements, impl_lines = [], [], []
+    for i, c in enumerate(cases):
+        il = impl[i] if i < len(impl) and impl[i] else 'NOOUTPUT'
+        ml = model[i]
+        c['impl'], c['model'] = il, ml
+        impl_lines.append(il)
+        ist, ikv, _ = infra.parse_out(il)
+        mst, mkv, _ = infra.parse_out(ml)
+        d = [k for k in ('len', 'slots', 'log', 'ids') if ikv.get(k) != mkv.get(k)]
+        if ist != mst or d:
+            disagreements.append((c, ['%s impl=%s model=%s' % (k, ikv.get(k), mkv.get(k)) for k in d] or ['status']))
+        f = []
+        if ist != 'OK':
+            f.append('driver status ' + il[:40])
+        else:
+            m = c['meta']
+            if ikv.get('ids') != 'true':
+                f.append('a created handle is zero or not unique')
+            if ikv.get('len') != '0':
+                f.append('live-object count did not return to its starting value after all references were released (len delta %s)' % ikv.get('len'))
+            if any(x != 'x' for x in (ikv.get('slots') or '').split(',') if x):
+                f.append('a fully released handle still resolves: slots=%s' % ikv.get('slots'))
+            # a Get by an owner must find the object: in the disciplined histories every G is issued while the thread owns a reference
+            if m['kind'] == 'disc':
+                for e in (ikv.get('log') or '').split(','):
+                    if e and e.split(':')[1] == '1' and e.split(':')[2] != '1':
+                        f.append('a handle with a positive reference count did not resolve (%s)' % e)
+        if f:
+            failures.append((c, f))
+    if stress_fail:
+        c = dict(line='c20-stress', text='race-detector stress of the handle tables (8 goroutines x 8 handles)', shape='stress', meta={}, nontrivial=True,
+                 args=[], op='stress', impl=stress_fail[-600:])
+        cases.append(c)
+        impl_lines.append('FAIL')
+        failures.append((c, ['stress under the race detector failed: ' + stress_fail[-400:]]))
+    return cases, impl_lines, failures, disagreements, dict(problems=problems, states=len(cases), transitions=sum(len(c['raw'].split(' ')[2].split(',')) for c in cases if 'raw' in c),
+                                                             traces_validated_against_impl=len(cases))
